@@ -3,7 +3,8 @@
 every check (run tools/run_all.sh first): every rule id with its statement and instance / violation counts."""
 import json
 from pathlib import Path
-V = Path("/verif")
+import os
+V = Path(os.environ.get("VERIF_ROOT", "/verif"))
 out = []
 for i in range(1, 19):
     pid = f"C{i:02d}"
